@@ -24,6 +24,9 @@ def load_known():
 class Report:
     """Collects violations / known findings for one property run and writes evidence + exit status."""
 
+    # replay-by-rerun: when set, finish() writes nothing and only reports whether the recorded violation recurs
+    REPLAY_SUMMARY = None
+
     def __init__(self, prop, tier):
         self.prop, self.tier = prop, tier
         self.t0 = time.time()
@@ -36,7 +39,7 @@ class Report:
         self.known = {f["id"]: f for f in kf.get("findings", []) if f.get("property") == prop or prop in f.get("also_affects", [])}
         os.makedirs(REPLAY, exist_ok=True)
         # remove stale replay files of this property
-        for f in os.listdir(REPLAY):
+        for f in ([] if Report.REPLAY_SUMMARY is not None else os.listdir(REPLAY)):
             if f.startswith(prop + "-"):
                 try:
                     os.unlink(os.path.join(REPLAY, f))
@@ -54,6 +57,10 @@ class Report:
             self.violation(summary + " [matches signature %s, which is not a listed finding]" % finding_id, replay)
 
     def finish(self, level="model_checking"):
+        if Report.REPLAY_SUMMARY is not None:
+            hit = [s for s, _ in self.violations if s.split(" [")[0] == Report.REPLAY_SUMMARY.split(" [")[0]]
+            print("replay: %s" % ("violation reproduced: " + hit[0] if hit else "recorded violation does not occur on the current tree"))
+            return 1 if hit else 0
         wall = time.time() - self.t0
         nviol = len(self.violations)
         paths = []
@@ -93,3 +100,13 @@ class Report:
             self.prop, self.tier, "VIOLATED" if nviol else "held", cov.get("states"), cov.get("transitions"),
             cov.get("traces_validated_against_impl"), cov.get("exhaustive"), wall))
         return 1 if nviol else 0
+
+
+def replay_by_rerun(prop, path, check_fn, tier="quick"):
+    """Generic replay for enumerators whose cases are cheap: rebuild the tree, re-run the enumeration, look for the recorded case."""
+    v = json.load(open(path))
+    Report.REPLAY_SUMMARY = v.get("summary", "")
+    rc = check_fn(tier)
+    if rc == 1:
+        print("VIOLATION property=%s replay=%s" % (prop, path))
+    return rc
